@@ -136,6 +136,7 @@ public:
 	void nontrivial(uint64_t key) { mNontrivial.push_back(key); }
 	void state(uint64_t h) { mStates.push_back(h); }
 	void state(const std::string& canon) { mStates.push_back(fnv(canon)); }
+	void aux(uint64_t h) { mAux.push_back(h); }     // a second distinct-set (harness-defined meaning, reported as `aux`)
 	void transition(uint64_t n = 1) { mTrans += n; }
 	void evals(uint64_t n) { mExtraEvals += n; }   // a block execution covering n inner cases
 	void sample(const std::string& s) { if (mSamples.size() < 2) mSamples.push_back(s); }
@@ -174,13 +175,13 @@ private:
 	}
 	void reset(const std::vector<int>& prefix) {
 		mPrefix = prefix; mTaken.clear(); mArity.clear(); mIsDev.clear(); mDevUsed = 0;
-		mOutcomes.clear(); mNontrivial.clear(); mStates.clear(); mTrans = 0; mExtraEvals = 0; mSamples.clear(); mViol.clear(); mDesc.clear(); mSigBase.clear();
+		mOutcomes.clear(); mNontrivial.clear(); mStates.clear(); mAux.clear(); mTrans = 0; mExtraEvals = 0; mSamples.clear(); mViol.clear(); mDesc.clear(); mSigBase.clear();
 		if (mSlot) { mSlot->depth = 0; mSlot->desc[0] = 0; mSlot->sig[0] = 0; }
 	}
 	std::vector<int> mPrefix, mTaken, mArity; std::vector<char> mIsDev;
 	int mDevUsed = 0, mPartDepth = 2, mWorkers = 1, mWorker = 0; uint64_t mSalt = 0;
 	Slot* mSlot = nullptr;
-	std::vector<std::string> mOutcomes, mSamples; std::vector<uint64_t> mNontrivial, mStates;
+	std::vector<std::string> mOutcomes, mSamples; std::vector<uint64_t> mNontrivial, mStates, mAux;
 	uint64_t mTrans = 0, mExtraEvals = 0;
 	std::vector<std::pair<std::string, std::string>> mViol;
 	std::string mDesc, mSigBase;
@@ -261,7 +262,7 @@ private:
 		std::string recName = mDir + "/rec." + std::to_string(w) + ".jsonl", keyName = mDir + "/keys." + std::to_string(w) + ".bin";
 		int recFd = open(recName.c_str(), O_WRONLY | O_CREAT | O_APPEND, 0644);
 		FILE* keys = fopen(keyName.c_str(), "ab");
-		std::unordered_set<uint64_t> seenOut, seenNt, seenSt; std::unordered_map<std::string, int> sigCount; int samples = 0;
+		std::unordered_set<uint64_t> seenOut, seenNt, seenSt, seenAx; std::unordered_map<std::string, int> sigCount; int samples = 0;
 		auto putKey = [&](char kind, uint64_t h) { fputc(kind, keys); fwrite(&h, 8, 1, keys); };
 		std::vector<int> prefix = start;
 		const double t0 = mT0;
@@ -286,6 +287,7 @@ private:
 				for (auto& o : c.mOutcomes) { uint64_t h = fnv(o); if (seenOut.insert(h).second) { putKey('O', h); std::string line = "{\"t\":\"outcome\",\"v\":\"" + jesc(o) + "\"}\n"; (void)!write(recFd, line.data(), line.size()); } }
 				for (auto h : c.mNontrivial) if (seenNt.insert(h).second) putKey('N', h);
 				for (auto h : c.mStates) if (seenSt.insert(h).second) putKey('S', h);
+				for (auto h : c.mAux) if (seenAx.insert(h).second) putKey('A', h);
 				if (samples < 3) for (auto& s : c.mSamples) { ++samples; std::string line = "{\"t\":\"sample\",\"v\":\"" + jesc(s) + "\"}\n"; (void)!write(recFd, line.data(), line.size()); }
 				for (auto& v : c.mViol) {
 					int& cnt = sigCount[v.first];
@@ -382,13 +384,13 @@ private:
 			if (!deadlineHit) completedBudget = budget;
 		}
 		// merge
-		std::set<uint64_t> outs, nts, sts; std::vector<std::string> outcomeNames, samples;
+		std::set<uint64_t> outs, nts, sts, axs; std::vector<std::string> outcomeNames, samples;
 		struct V { uint64_t count = 0; std::vector<std::string> ex; };
 		std::map<std::string, V> viol;
 		for (int w = 0; w < nw; ++w) {
 			std::string keyName = mDir + "/keys." + std::to_string(w) + ".bin";
 			if (FILE* f = fopen(keyName.c_str(), "rb")) {
-				int k; while ((k = fgetc(f)) != EOF) { uint64_t h; if (fread(&h, 8, 1, f) != 1) break; (k == 'O' ? outs : k == 'N' ? nts : sts).insert(h); }
+				int k; while ((k = fgetc(f)) != EOF) { uint64_t h; if (fread(&h, 8, 1, f) != 1) break; (k == 'O' ? outs : k == 'N' ? nts : k == 'A' ? axs : sts).insert(h); }
 				fclose(f);
 			}
 			std::string recName = mDir + "/rec." + std::to_string(w) + ".jsonl";
@@ -410,6 +412,7 @@ private:
 		if (!o) { perror("open out"); return 2; }
 		fprintf(o, "{\"property\":\"%s\",\"tier\":\"%s\",\"seed\":%llu,\"executions\":%llu,\"choice_points\":%llu,\"transitions\":%llu,\"max_depth\":%d,",
 			mProp, mTier.c_str(), static_cast<unsigned long long>(mSeed), static_cast<unsigned long long>(totExec), static_cast<unsigned long long>(totCp), static_cast<unsigned long long>(totTrans), maxDepth);
+		fprintf(o, "\"aux\":%zu,", axs.size());
 		fprintf(o, "\"distinct_outcomes\":%zu,\"distinct_nontrivial\":%zu,\"states\":%zu,\"max_dev\":%d,\"completed_dev_bound\":%d,\"deadline_hit\":%s,\"deadline_s\":%g,\"workers\":%d,\"restarts\":%llu,\"wall_s\":%.2f,",
 			outs.size(), nts.size(), sts.size(), mCfg.max_dev, completedBudget, deadlineHit ? "true" : "false", mCfg.deadline_s, nw, static_cast<unsigned long long>(restarts), now() - mT0);
 		fprintf(o, "\"outcomes\":[");
